@@ -273,6 +273,18 @@ pub fn panic_message(payload: &Box<dyn std::any::Any + Send>) -> String {
 
 thread_local! {
     pub static LAST_PANIC_LOCATION: std::cell::RefCell<Option<String>> = const { std::cell::RefCell::new(None) };
+    /// (message, location) of panics that happened on this thread since the last `take_swallowed_panic`
+    /// (tokio catches panics inside spawned tasks, so `catch_unwind` around a step does not see them)
+    pub static PANICS_SEEN: std::cell::RefCell<Vec<(String, String)>> = const { std::cell::RefCell::new(Vec::new()) };
+}
+
+pub fn take_swallowed_panic() -> Option<(String, String)> {
+    PANICS_SEEN.with(|c| {
+        let mut c = c.borrow_mut();
+        let r = c.first().cloned();
+        c.clear();
+        r
+    })
 }
 
 /// Installs a panic hook that records file + message (no line: stable across edits) in a
@@ -283,6 +295,18 @@ pub fn install_quiet_panic_hook() {
             .location()
             .map(|l| format!("{}:{}", l.file(), l.line()))
             .unwrap_or_else(|| "?".to_string());
+        let msg = if let Some(s) = info.payload().downcast_ref::<&str>() {
+            s.to_string()
+        } else if let Some(s) = info.payload().downcast_ref::<String>() {
+            s.clone()
+        } else {
+            "non-string panic payload".to_string()
+        };
+        let _ = PANICS_SEEN.try_with(|c| {
+            if let Ok(mut c) = c.try_borrow_mut() {
+                c.push((msg, loc.clone()));
+            }
+        });
         let _ = LAST_PANIC_LOCATION.try_with(|c| {
             if let Ok(mut c) = c.try_borrow_mut() {
                 *c = Some(loc);
